@@ -336,3 +336,48 @@ func indexExp(es []Exp, tag string) int {
 	}
 	return -1
 }
+
+// GroupInfo describes one repeating group of a library template.
+type GroupInfo struct {
+	Count   string
+	First   string
+	Members []string
+	Depth   int
+}
+
+// LibTags lists the field tags and the groups of a library item tree.
+func LibTags(items fix.Items) (fields []string, groups []GroupInfo) {
+	var walk func(items fix.Items, depth int, members *[]string)
+	walk = func(items fix.Items, depth int, members *[]string) {
+		for _, it := range items {
+			switch el := it.(type) {
+			case *fix.KeyValue:
+				if el != nil {
+					fields = append(fields, el.Key)
+					if members != nil {
+						*members = append(*members, el.Key)
+					}
+				}
+			case *fix.Component:
+				if el != nil {
+					walk(el.Items(), depth, members)
+				}
+			case *fix.Group:
+				if el != nil {
+					tmpl := el.AsTemplate()
+					gi := GroupInfo{Count: el.NoTag(), First: firstLeafTag(tmpl), Depth: depth + 1}
+					var mem []string
+					idx := len(groups)
+					groups = append(groups, gi)
+					walk(tmpl, depth+1, &mem)
+					groups[idx].Members = mem
+					if members != nil {
+						*members = append(*members, el.NoTag())
+					}
+				}
+			}
+		}
+	}
+	walk(items, 0, nil)
+	return
+}
